@@ -1,2 +1,43 @@
-(* theorems land in the next commit *)
-From JS Require Import Model.Recursion.
+(* C06 - no false recursion alarms; self-requiring roots are reported; Example() ends with JSON.
+   Model/Recursion.v: recursionChecker (after the fix: commit) with nested type tables and the fallback to the
+   checked schema's table; exampleBuilder's expansion with processedTypes; the bytes it writes.
+   Spec/RefGraph.v: instantiability (least fixed point, height-indexed) and the "requires itself" relation. *)
+From Coq Require Import List NArith Bool.
+From JS Require Import Base.Res Model.Recursion Spec.RefGraph Spec.JsonGrammar Proofs.RecursionProofs Proofs.ExampleProofs.
+Import ListNotations.
+
+(* for every project, every table configuration and every amount of fuel: an "infinite recursion" verdict
+   implies that the root schema has no finite instance *)
+Theorem C06_no_false_alarm : forall rootname rootnode roott fuel,
+  rec_check fuel rootname rootnode roott = Ok true -> ~ Inst rootname rootnode roott.
+Proof. exact no_false_alarm. Qed.
+Print Assumptions C06_no_false_alarm.
+
+(* a root that requires itself through mandatory single-name links - of any length, with the intermediate
+   types resolved in the enclosing type's table or in the root's - is reported whenever the check returns *)
+Theorem C06_self_requiring : forall rootname rootnode roott fuel b,
+  Req rootname roott [] roott rootnode -> rec_check fuel rootname rootnode roott = Ok b -> b = true.
+Proof. exact self_requiring_reported. Qed.
+Print Assumptions C06_self_requiring.
+
+(* the example builder terminates: with fuel = size of the root + 2 * #types * (largest type + 1) it never runs
+   out (every type is expanded at most twice on a path) ... *)
+Theorem C06_example_terminates : forall roott M,
+  Forall (fun te => match snd te with Entry r _ => sz r <= M end) roott ->
+  forall rootnode, not_panic (build roott (sz rootnode + room roott [] * (M + 1)) [] rootnode).
+Proof. exact example_terminates. Qed.
+Print Assumptions C06_example_terminates.
+
+(* ... and what it writes (separator before every written member except the first) is an RFC 8259 value *)
+Theorem C06_example_json : forall n x, xsize x <= n -> JValue (render x).
+Proof. exact render_is_json. Qed.
+Print Assumptions C06_example_json.
+
+(* partial: termination of the checker itself (fuel bound) is not proved; the correspondence runs it with fuel 4000
+   on every generated graph and compares the verdict with the implementation *)
+Example C06_example :
+  (* @t0 {p: @t1}, @t1 {p: @t2}, @t2 {p: @t0}: reported;  with the last link optional: accepted *)
+  let t l := [(1, Entry (NObj false false [NRef false false [2]]) []); (2, Entry (NObj false false [l]) [])]%N in
+  rec_check 100 0%N (NObj false false [NRef false false [1%N]]) (t (NRef false false [0%N])) = Ok true /\
+  rec_check 100 0%N (NObj false false [NRef false false [1%N]]) (t (NRef true false [0%N])) = Ok false.
+Proof. vm_compute. auto. Qed.
